@@ -116,7 +116,11 @@ func mkVar(name string, s Sort) *Term {
 }
 
 func mkApp(op string, s Sort, args ...*Term) *Term {
-	return &Term{Op: op, S: s, Args: args}
+	n := 1
+	for _, a := range args {
+		n += a.size
+	}
+	return &Term{Op: op, S: s, Args: args, size: n}
 }
 
 // ---------------------------------------------------------------- printing
@@ -586,6 +590,9 @@ func intMul(a, b *Term) *Term {
 func intNeg(a *Term) *Term { return intSub(mkInt(0), a) }
 
 func intCmp(op string, a, b *Term) *Term {
+	if a == b {
+		return mkBool(op == "<=" || op == ">=")
+	}
 	if a.IsConst() && b.IsConst() {
 		switch op {
 		case "<":
@@ -712,6 +719,16 @@ func strLen(a *Term) *Term {
 }
 
 func strSubstr(s, off, n *Term) *Term {
+	// s[k:] of a concatenation with a constant head of length >= k
+	if off.IsConst() && s.Op == "str.++" && s.Args[0].IsConst() && int64(len(s.Args[0].Str)) >= off.I && off.I >= 0 {
+		if ln := strLen(s); n.String() == intSub(ln, off).String() || n == ln {
+			rest := append([]*Term{mkStr(s.Args[0].Str[off.I:])}, s.Args[1:]...)
+			return strConcat(rest...)
+		}
+	}
+	if off.IsConst() && off.I == 0 && n == strLen(s) {
+		return s
+	}
 	if s.IsConst() && off.IsConst() && n.IsConst() {
 		o, l := off.I, n.I
 		if o < 0 || o >= int64(len(s.Str)) || l <= 0 {
@@ -731,6 +748,15 @@ func strPrefixOf(p, s *Term) *Term {
 	}
 	if p.IsConst() && p.Str == "" {
 		return termTrue
+	}
+	if p.IsConst() && s.Op == "str.++" && s.Args[0].IsConst() {
+		h := s.Args[0].Str
+		if strings.HasPrefix(h, p.Str) {
+			return termTrue
+		}
+		if len(h) >= len(p.Str) || !strings.HasPrefix(p.Str, h) {
+			return termFalse
+		}
 	}
 	return mkApp("str.prefixof", sortBool, p, s)
 }
